@@ -56,6 +56,18 @@ var (
 	UnsupportedAlgorithm = errors.New("biscuit: unsupported signature algorithm")
 )
 
+// signedPayload builds the byte string covered by a block signature in a fresh buffer
+// (block || algorithm || next key [|| signature]); the stored slices are only read, so
+// that a token can be verified and sealed by concurrent goroutines.
+func signedPayload(block, algorithm, nextKey, signature []byte) []byte {
+	payload := make([]byte, 0, len(block)+len(algorithm)+len(nextKey)+len(signature))
+	payload = append(payload, block...)
+	payload = append(payload, algorithm...)
+	payload = append(payload, nextKey...)
+	payload = append(payload, signature...)
+	return payload
+}
+
 type biscuitOptions struct {
 	rng       io.Reader
 	rootKeyID *uint32
@@ -272,9 +284,7 @@ func (b *Biscuit) Seal(rng io.Reader) (*Biscuit, error) {
 
 	toSignAlgorithm := make([]byte, 4)
 	binary.LittleEndian.PutUint32(toSignAlgorithm[0:], uint32(lastBlock.NextKey.Algorithm.Number()))
-	toSign := append(lastBlock.Block[:], toSignAlgorithm...)
-	toSign = append(toSign, lastBlock.NextKey.Key[:]...)
-	toSign = append(toSign, lastBlock.Signature[:]...)
+	toSign := signedPayload(lastBlock.Block, toSignAlgorithm, lastBlock.NextKey.Key, lastBlock.Signature)
 
 	signature := ed25519.Sign(privateKey, toSign)
 
@@ -348,8 +358,7 @@ func (b *Biscuit) authorizerFor(root ed25519.PublicKey, opts ...AuthorizerOption
 	algorithm := make([]byte, 4)
 	binary.LittleEndian.PutUint32(algorithm[0:], uint32(b.container.Authority.NextKey.Algorithm.Number()))
 
-	toVerify := append(b.container.Authority.Block[:], algorithm...)
-	toVerify = append(toVerify, b.container.Authority.NextKey.Key[:]...)
+	toVerify := signedPayload(b.container.Authority.Block, algorithm, b.container.Authority.NextKey.Key, nil)
 
 	if ok := ed25519.Verify(currentKey, toVerify, b.container.Authority.Signature); !ok {
 		return nil, ErrInvalidSignature
@@ -367,8 +376,7 @@ func (b *Biscuit) authorizerFor(root ed25519.PublicKey, opts ...AuthorizerOption
 
 		algorithm := make([]byte, 4)
 		binary.LittleEndian.PutUint32(algorithm[0:], uint32(block.NextKey.Algorithm.Number()))
-		toVerify := append(block.Block[:], algorithm...)
-		toVerify = append(toVerify, block.NextKey.Key[:]...)
+		toVerify := signedPayload(block.Block, algorithm, block.NextKey.Key, nil)
 
 		if ok := ed25519.Verify(currentKey, toVerify, block.Signature); !ok {
 			return nil, ErrInvalidSignature
@@ -408,9 +416,7 @@ func (b *Biscuit) authorizerFor(root ed25519.PublicKey, opts ...AuthorizerOption
 
 			algorithm := make([]byte, 4)
 			binary.LittleEndian.PutUint32(algorithm[0:], uint32(lastBlock.NextKey.Algorithm.Number()))
-			toVerify := append(lastBlock.Block[:], algorithm...)
-			toVerify = append(toVerify, lastBlock.NextKey.Key[:]...)
-			toVerify = append(toVerify, lastBlock.Signature[:]...)
+			toVerify := signedPayload(lastBlock.Block, algorithm, lastBlock.NextKey.Key, lastBlock.Signature)
 
 			if ok := ed25519.Verify(currentKey, toVerify, signature); !ok {
 				return nil, errors.New("biscuit: invalid last signature")
